@@ -60,6 +60,11 @@ EnumManager::get_enum_definition(const std::string &enum_name) const {
     return nullptr;
 }
 
+bool EnumManager::has_associated_values(const std::string &enum_name) const {
+    const EnumDefinition *definition = get_enum_definition(enum_name);
+    return definition && definition->has_associated_values;
+}
+
 bool EnumManager::get_enum_value(const std::string &enum_name,
                                  const std::string &member_name,
                                  int64_t &value) const {
